@@ -126,5 +126,14 @@ check("C11", "exploration",
       "destruction, no use after destroy, nothing alive). ASan incl. stack-use-after-return.",
       "Trusted: the registry (single-threaded), the by-construction knowledge of when the last referrer is gone. No reference cycles.",
       "event-log checker over an instrumented class + ASan, on generated lifetime routes", "DESIGN.md section 5 C11")
+check("C07", "exploration",
+      "2.5k/100k mutation attempts: const source (19 kinds: C++ objects shared by const&, const*, shared_ptr<const>, const return values, "
+      "add_global_const / const_var values; plus literal spellings re-evaluated after the attempt) x alias chain of 0-5 steps (var &, :=, "
+      "return, copy, vector element, then parameter / parameter+reference / capture / bind wrappers) x one mutator of the source's type (every "
+      "assignment operator, ++/--, mutating members of string/Vector/Map/user class, harness functions taking T&, T*, shared_ptr<T>, "
+      "reference_wrapper<T>). Conservation oracle: the harness owns the objects and compares snapshots of all of them before/after; attempts "
+      "through reference-preserving chains with an own-type mutator must end in an exception.",
+      "Trusted: snapshots taken from C++. Converting parameter forms (shared_ptr<int>/reference_wrapper<int> fed from an arithmetic value) are judged on conservation only.",
+      "conservation oracle over harness-owned const objects + outcome check, on generated alias chains x mutators, under ASan", "DESIGN.md section 5 C07")
 for _p in ["C%02d" % i for i in range(2, 21) if "C%02d" % i not in CHECKS]:
     NA[_p] = "check not implemented yet in this revision (work in progress, see DESIGN.md); nothing is claimed"
